@@ -262,16 +262,17 @@ def check_trim_curve(curve, parbox, **kwargs):
     # Keyword arguments
     tol = kwargs.get('tol', 10e-8)
 
-    # Distances and cross products are measured in the parametric space of the surface: the tolerances are relative to its size
-    size = max(abs(parbox[1][0] - parbox[0][0]), abs(parbox[2][1] - parbox[1][1]))
-    tol_ccw = tol * size * size
-    tol *= size
+    # Distances and cross products are measured in the parametric space of the surface, each direction relative to its own
+    # range: the tests work on the points mapped to the unit square
+    upar = _unit_square_map(parbox)
+    ubox = [upar(pt) for pt in parbox]
+    upts = [upar(pt) for pt in curve.evalpts]
 
     # First, check if the curve is closed
-    dist = linalg.point_distance(curve.evalpts[0], curve.evalpts[-1])
+    dist = linalg.point_distance(upts[0], upts[-1])
     if dist <= tol:
         # Curve is closed
-        return detect_sense(curve, tol_ccw), []
+        return detect_sense(curve, tol, pts=upts), []
     else:
         # Define start and end points of the trim curve
         pt_start = curve.evalpts[0]
@@ -281,9 +282,9 @@ def check_trim_curve(curve, parbox, **kwargs):
         idx_spt = -1
         idx_ept = -1
         for idx in range(len(parbox) - 1):
-            if detect_intersection(parbox[idx], parbox[idx + 1], pt_start, tol):
+            if detect_intersection(ubox[idx], ubox[idx + 1], upts[0], tol):
                 idx_spt = idx
-            if detect_intersection(parbox[idx], parbox[idx + 1], pt_end, tol):
+            if detect_intersection(ubox[idx], ubox[idx + 1], upts[-1], tol):
                 idx_ept = idx
 
         # Check result of the intersection
@@ -298,17 +299,17 @@ def check_trim_curve(curve, parbox, **kwargs):
             # If sense is None, then detect sense
             if c_sense is None:
                 # Get evaluated points
-                pts = curve.evalpts
+                pts = upts
                 num_pts = len(pts)
 
                 # Find sense
                 tmp_sense = 0
                 for pti in range(1, num_pts - 1):
-                    tmp_sense = detect_ccw(pts[pti - 1], pts[pti], pts[pti + 1], tol_ccw)
+                    tmp_sense = detect_ccw(pts[pti - 1], pts[pti], pts[pti + 1], tol)
                     if tmp_sense != 0:
                         break
                 if tmp_sense == 0:
-                    tmp_sense2 = detect_ccw(pts[int(num_pts/3)], pts[int(2*num_pts/3)], pts[-int(num_pts/3)], tol_ccw)
+                    tmp_sense2 = detect_ccw(pts[int(num_pts/3)], pts[int(2*num_pts/3)], pts[-int(num_pts/3)], tol)
                     if tmp_sense2 != 0:
                         tmp_sense = -tmp_sense2
                     else:
@@ -355,6 +356,16 @@ def check_trim_curve(curve, parbox, **kwargs):
             return True, cont
 
 
+def _unit_square_map(parbox):
+    """ Returns the function which maps the points of the parametric domain with the given bounding box to the unit square. """
+    u_start, v_start = parbox[0][0], parbox[0][1]
+    u_range, v_range = parbox[1][0] - parbox[0][0], parbox[2][1] - parbox[1][1]
+
+    def unit_square_map(pt):
+        return [(pt[0] - u_start) / u_range, (pt[1] - v_start) / v_range]
+    return unit_square_map
+
+
 def get_par_box(domain, last=False):
     """ Returns the bounding box of the surface parametric domain in ccw direction.
 
@@ -373,8 +384,11 @@ def get_par_box(domain, last=False):
     return tuple(verts)
 
 
-def detect_sense(curve, tol):
+def detect_sense(curve, tol, **kwargs):
     """ Detects the sense, i.e. clockwise or counter-clockwise, of the curve.
+
+    Keyword Arguments:
+        * ``pts``: the points to be used instead of the evaluated points of the curve, e.g. scaled points
 
     :param curve: 2-dimensional trim curve
     :type curve: abstract.Curve
@@ -385,7 +399,7 @@ def detect_sense(curve, tol):
     """
     if curve.opt_get('reversed') is None:
         # Detect sense since it is unset
-        pts = curve.evalpts
+        pts = kwargs.get('pts', curve.evalpts)
         num_pts = len(pts)
         for idx in range(1, num_pts - 1):
             sense = detect_ccw(pts[idx - 1], pts[idx], pts[idx + 1], tol)
